@@ -5,6 +5,8 @@ import ast
 
 from vlib.core import AnalysisError, Report
 from vlib.schema import dict_keys, returned_dicts, subscripted_keys, typeddict_keys
+from vlib.flow import parent_map
+from vlib.match import FI, X, atoms, calls, closure, facts, has_call, nodes
 from vlib.srcindex import SourceIndex, attr_chain, const_str, unparse, walk_no_nested
 
 EXPLANATION = (
@@ -42,25 +44,37 @@ def run(rep: Report, tier: str) -> None:
 		written[cls_val] = (set(keys), dct)
 	if set(written) != {'Symbol', 'Reflection'}:
 		r.violate('serialize:shapes', s.where, f'serialize writes record shapes {sorted(written)}; deserialize distinguishes Symbol / Reflection')
-	# reader branches: if data['class'] == 'Symbol': ... else: ...
-	top_if = next((n for n in d.node.body if isinstance(n, ast.If)), None)
-	if top_if is None or "data['class'] ==" not in unparse(top_if.test):
-		raise AnalysisError('deserialize no longer branches on data[\'class\']')
-	tested = const_str(top_if.test.comparators[0]) if isinstance(top_if.test, ast.Compare) else None
-	branches = {tested: top_if.body}
+	# reader: every data[<key>] read in deserialize, with the truth of the discriminator test known at that point
+	dparam = d.params()[2] if len(d.params()) > 2 else 'data'
+	dx = X(d)
+	dfi = FI(d)
+	reads: list[tuple[str, str | None, bool | None, ast.AST]] = []  # key, tested value, polarity, node
+	tested_vals: set[str] = set()
+	for n in nodes(dx, ast.Subscript):
+		if unparse(n.value) != dparam or const_str(n.slice) is None:
+			continue
+		disc = [(const_str(a.comparators[0]), p_) for a, p_ in atoms(dx, n) if isinstance(a, ast.Compare) and len(a.ops) == 1 and isinstance(a.ops[0], ast.Eq) and unparse(a.left) == f"{dparam}['class']" and const_str(a.comparators[0]) is not None]
+		for v_, _ in disc:
+			tested_vals.add(v_)
+		reads.append((const_str(n.slice), disc[0][0] if disc else None, disc[0][1] if disc else None, n))
+	for n in nodes(dx, ast.Compare):
+		if len(n.ops) == 1 and isinstance(n.ops[0], (ast.Eq, ast.NotEq)) and unparse(n.left) == f"{dparam}['class']" and const_str(n.comparators[0]) is not None:
+			tested_vals.add(const_str(n.comparators[0]))
+	if len(tested_vals) != 1:
+		raise AnalysisError(f'deserialize no longer branches on {dparam}[\'class\'] == <one constant> (tests: {sorted(tested_vals)})')
+	tested = next(iter(tested_vals))
 	other = [k for k in written if k != tested]
-	if len(other) == 1:
-		branches[other[0]] = top_if.orelse
-	r.check(tested in written, 'discriminator', (SER, top_if.lineno), f'deserialize tests data[\'class\'] == {tested!r}, which serialize never writes ({sorted(written)})')
+	r.check(tested in written, 'discriminator', d.where, f'deserialize tests data[\'class\'] == {tested!r}, which serialize never writes ({sorted(written)})')
+	shapes = [tested] + (other if len(other) == 1 else [])
 	tdmap = {'Symbol': 'DictSymbol', 'Reflection': 'DictReflection'}
 	read_by: dict[str, set[str]] = {}
-	for shape, body in branches.items():
-		mod = ast.Module(body=body, type_ignores=[])
-		read = subscripted_keys(mod, 'data') | {'class'}
+	for shape in shapes:
+		want_pol = shape == tested
+		read = {k for k, v_, pol, _ in reads if pol is None or pol == want_pol} | {'class'}
 		read_by[shape] = read
 		if shape in written:
 			w = written[shape][0]
-			r.check(w == read, f'{shape}:written==read', (SER, body[0].lineno if body else d.node.lineno), f'{shape}: serialize writes {sorted(w)} but deserialize reads {sorted(read)} (only written: {sorted(w - read)}, only read: {sorted(read - w)})')
+			r.check(w == read, f'{shape}:written==read', d.where, f'{shape}: serialize writes {sorted(w)} but deserialize reads {sorted(read)} (only written: {sorted(w - read)}, only read: {sorted(read - w)})')
 		td = tds.get(tdmap.get(shape, ''))
 		if td is None:
 			r.violate(f'{shape}:typeddict', (SCHEMA, 1), f'TypedDict {tdmap.get(shape)} vanished from serialization.py')
@@ -69,71 +83,72 @@ def run(rep: Report, tier: str) -> None:
 			lit = td.get('class', '')
 			r.check(repr(shape) in lit, f'{shape}:typeddict-discriminator', (SCHEMA, 1), f'TypedDict {tdmap[shape]} declares class: {lit}, serialize writes {shape!r}')
 
-	# field wiring
+	# field wiring (on the fully inlined bodies: every local stands for its defining expression)
 	rw = rep.rule('C14/field-wiring', 'each restored constructor field is fed from the key of the same name, and that key was written from the matching attribute; path fields use ModuleDSN.full_joined <-> parsed', floor=8)
-	if 'Reflection' in written and 'Reflection' in branches:
-		wd = written['Reflection'][1]
+	sfi = FI(s)
+	sparam = s.params()[1] if len(s.params()) > 1 else 'symbol'
+	wdicts = {}
+	for dct in [n for n in nodes(sfi, ast.Dict)]:
+		cv = next((const_str(v) for k, v in zip(dct.keys, dct.values) if const_str(k) == 'class'), None)
+		if cv:
+			wdicts[cv] = dct
+
+	def value_keys(e: ast.AST) -> set[str]:
+		"""data keys that can supply the value (for a conditional expression only the branches do; the test may consult other keys)"""
+		if isinstance(e, ast.IfExp):
+			return value_keys(e.body) | value_keys(e.orelse)
+		return subscripted_keys(e, dparam)
+
+	if 'Reflection' in wdicts:
+		wd = wdicts['Reflection']
 		wsrc = {const_str(k): unparse(v) for k, v in zip(wd.keys, wd.values)}
-		expect_attr = {'node': 'symbol.node.', 'decl': 'symbol.decl.', 'origin': 'symbol.types.fullyname', 'via': 'symbol.via.types.fullyname'}
+		expect_attr = {'node': f'{sparam}.node.', 'decl': f'{sparam}.decl.', 'origin': f'{sparam}.types.fullyname', 'via': f'{sparam}.via.types.fullyname'}
 		for k, frag in expect_attr.items():
 			rw.check(frag in wsrc.get(k, ''), f'write:{k}', (SER, wd.lineno), f'key {k!r} is written from `{wsrc.get(k)}`, expected an expression over `{frag}`')
-		body = ast.Module(body=branches['Reflection'], type_ignores=[])
-		opts = [n for n in ast.walk(body) if isinstance(n, ast.Call) and attr_chain(n.func) == 'Options']
+		opts = [n for n in nodes(dfi, ast.Call) if attr_chain(n.func) == 'Options']
 		if len(opts) != 1:
-			rw.undecided('read:Options', (SER, branches['Reflection'][0].lineno), 'Options(...) construction not found in the Reflection branch')
+			rw.skip('read:Options', d.where, 'Options(...) construction not found in deserialize')
 		else:
-			# local -> the data key it was derived from
-			origin_of: dict[str, set[str]] = {}
-			for n in ast.walk(body):
-				if isinstance(n, ast.Assign) and len(n.targets) == 1 and isinstance(n.targets[0], ast.Name):
-					keys = subscripted_keys(n.value, 'data')
-					for nm in [x.id for x in ast.walk(n.value) if isinstance(x, ast.Name)]:
-						keys |= origin_of.get(nm, set())
-					origin_of[n.targets[0].id] = keys
-			# value sources: for a conditional expression only the branches produce the value (the test may consult other keys)
-			def value_keys(e: ast.AST) -> set[str]:
-				if isinstance(e, ast.IfExp):
-					return value_keys(e.body) | value_keys(e.orelse)
-				return subscripted_keys(e, 'data')
-			value_of: dict[str, set[str]] = {}
-			for n in ast.walk(body):
-				if isinstance(n, ast.Assign) and len(n.targets) == 1 and isinstance(n.targets[0], ast.Name):
-					keys = value_keys(n.value)
-					for nm in [x.id for x in ast.walk(n.value) if isinstance(x, ast.Name)]:
-						keys |= value_of.get(nm, set())
-					value_of[n.targets[0].id] = keys
 			for kw in opts[0].keywords:
 				src_keys = value_keys(kw.value)
-				for x in ast.walk(kw.value):
-					if isinstance(x, ast.Name):
-						src_keys |= value_of.get(x.id, set())
 				rw.check(src_keys == {kw.arg}, f'read:Options.{kw.arg}', (SER, opts[0].lineno), f'Options({kw.arg}=...) takes its value from data keys {sorted(src_keys)}; expected data[{kw.arg!r}]')
 			rw.check({k.arg for k in opts[0].keywords} == {'node', 'decl', 'origin', 'via'}, 'read:Options-fields', (SER, opts[0].lineno), f'Options is built with {[k.arg for k in opts[0].keywords]}')
-	if 'Symbol' in written and 'Symbol' in branches:
-		wd = written['Symbol'][1]
+	if 'Symbol' in wdicts:
+		wd = wdicts['Symbol']
 		wsrc = {const_str(k): unparse(v) for k, v in zip(wd.keys, wd.values)}
-		rw.check('symbol.types.' in wsrc.get('types', ''), 'write:types', (SER, wd.lineno), f"key 'types' is written from `{wsrc.get('types')}`")
-		body = ast.Module(body=branches['Symbol'], type_ignores=[])
-		inst = [n for n in ast.walk(body) if isinstance(n, ast.Call) and attr_chain(n.func) == 'Symbol.instantiate']
-		rw.check(len(inst) == 1 and len(inst[0].args) == 2 and unparse(inst[0].args[1]) == 'types', 'read:Symbol.instantiate', (SER, branches['Symbol'][0].lineno), 'Symbol.instantiate is no longer called with the class node restored from data[\'types\']')
-	src_s, src_d = unparse(s.node), unparse(d.node)
+		rw.check(f'{sparam}.types.' in wsrc.get('types', ''), 'write:types', (SER, wd.lineno), f"key 'types' is written from `{wsrc.get('types')}`")
+		inst = [n for n in nodes(dfi, ast.Call) if attr_chain(n.func) == 'Symbol.instantiate']
+		if len(inst) != 1 or len(inst[0].args) != 2:
+			rw.skip('read:Symbol.instantiate', d.where, 'Symbol.instantiate(traits, types) not found in deserialize')
+		else:
+			rw.check(subscripted_keys(inst[0].args[1], dparam) == {'types'}, 'read:Symbol.instantiate', (SER, inst[0].lineno), f'Symbol.instantiate must be called with the class node restored from data[\'types\']: `{unparse(inst[0].args[1])[:120]}`')
+	pm_d = parent_map(dfi)
 	for k in ('types', 'node', 'decl'):
-		w_ok = any(f"'{k}': ModuleDSN.full_joined(" in unparse(dct) for dct in returned_dicts(s.node))
-		r_ok = f"ModuleDSN.parsed(data['{k}'])" in src_d
+		wv = [v for dct in wdicts.values() for kk, v in zip(dct.keys, dct.values) if const_str(kk) == k]
+		w_ok = bool(wv) and all(isinstance(v, ast.Call) and attr_chain(v.func) == 'ModuleDSN.full_joined' for v in wv)
+		rsites = [n for n in nodes(dfi, ast.Subscript) if unparse(n.value) == dparam and const_str(n.slice) == k]
+		r_ok = bool(rsites) and all(isinstance(pm_d.get(id(n)), ast.Call) and attr_chain(pm_d[id(n)].func) == 'ModuleDSN.parsed' for n in rsites)
 		rw.check(w_ok and r_ok, f'path-codec:{k}', s.where, f"key {k!r}: writer uses ModuleDSN.full_joined: {w_ok}, reader uses ModuleDSN.parsed: {r_ok}")
-	rw.check(src_d.count('.whole_by(') >= 3 and '_entrypoints.load(' in src_d, 'path-lookup', d.where, 'deserialize no longer resolves (module, full_path) pairs through entrypoints.load(module).whole_by(path)')
+	lookups = [n for fn in closure(d) for n in nodes(fn, ast.Call) if isinstance(n.func, ast.Attribute) and n.func.attr == 'whole_by' and isinstance(n.func.value, ast.Call) and unparse(n.func.value.func).endswith('_entrypoints.load')]
+	if lookups:
+		rw.ok('path-lookup', d.where)
+	else:
+		rw.skip('path-lookup', d.where, 'deserialize no longer resolves (module, full_path) pairs through entrypoints.load(module).whole_by(path)')
 
 	# attrs encoding
 	ra = rep.rule('C14/attr-path-encoding', 'flattened attr paths: writer (seqs.expand) and reader (_deserialize_attrs) use the same "." separator, shallow-to-deep order, integer indices', floor=5)
 	ex = seq.func('expand')
 	sep = {const_str(n.func.value) for n in ast.walk(ex.node) if isinstance(n, ast.Call) and isinstance(n.func, ast.Attribute) and n.func.attr == 'join'}
 	ra.check(sep == {'.'}, 'writer-separator', ex.where, f'seqs.expand joins path elements with {sep}')
-	ra.check("seqs.expand(symbol.attrs, iter_key='attrs')" in src_s and 'attr.types.fullyname' in src_s, 'writer-expand', s.where, 'serialize no longer flattens symbol.attrs with seqs.expand(..., iter_key=\'attrs\') to type keys')
+	wattrs = [v for dct in wdicts.values() for kk, v in zip(dct.keys, dct.values) if const_str(kk) == 'attrs']
+	exp_ok = bool(wattrs) and all(any(any(kw.arg == 'iter_key' and const_str(kw.value) == 'attrs' for kw in c_.keywords) and c_.args and unparse(c_.args[0]) == f'{sparam}.attrs' for c_ in calls(v, 'seqs.expand')) and '.types.fullyname' in unparse(v) for v in wattrs)
+	ra.check(exp_ok, 'writer-expand', s.where, 'serialize no longer flattens symbol.attrs with seqs.expand(..., iter_key=\'attrs\') to type keys')
 	da = c.method('_deserialize_attrs')
 	if da is None:
 		raise AnalysisError('_deserialize_attrs vanished')
-	splits = {const_str(n.args[0]) for n in ast.walk(da.node) if isinstance(n, ast.Call) and isinstance(n.func, ast.Attribute) and n.func.attr in ('split', 'count', 'join') and n.args and const_str(n.args[0]) is not None}
-	joins = {const_str(n.func.value) for n in ast.walk(da.node) if isinstance(n, ast.Call) and isinstance(n.func, ast.Attribute) and n.func.attr == 'join' and const_str(n.func.value) is not None}
+	dacl = closure(da)
+	splits = {const_str(n.args[0]) for n in nodes(dacl, ast.Call) if isinstance(n.func, ast.Attribute) and n.func.attr in ('split', 'count', 'join', 'rsplit', 'partition', 'rpartition') and n.args and const_str(n.args[0]) is not None}
+	joins = {const_str(n.func.value) for n in nodes(dacl, ast.Call) if isinstance(n.func, ast.Attribute) and n.func.attr == 'join' and const_str(n.func.value) is not None}
 	ra.check(splits <= {'.'} and joins <= {'.'} and '.' in splits, 'reader-separator', da.where, f'_deserialize_attrs splits/joins with {splits | joins}; the writer uses "."')
 	# ordering of the paths: shallow-to-deep by separator count, never by comparing path strings ("10" < "2")
 	from vlib.anchoring import Taint, find_sites
@@ -143,9 +158,11 @@ def run(rep: Report, tier: str) -> None:
 	for s_ in orders:
 		depth_key = s_.arg is not None and ".count('.')" in unparse(s_.arg)
 		ra.check(s_.anchored and depth_key, f'reader-order:{s_.text[:60]}', (SER, s_.node.lineno), f'`{s_.text}` must order the index paths by depth only (separator count; the stable sort keeps the numeric sibling order); comparing the path strings puts "10" before "2" and permutes siblings', s_.text)
-	ra.check('int(index_key)' in unparse(da.node), 'reader-int-index', da.where, 'indices are no longer parsed with int(): "10" would sort/compare as text')
-	ra.check('db[data_attrs[path]]' in unparse(da.node), 'reader-lookup', da.where, 'attribute values are no longer looked up in db by the written type key')
-
+	ra.check(has_call(dacl, 'int'), 'reader-int-index', da.where, 'indices are no longer parsed with int(): "10" would sort/compare as text')
+	daparams = da.params()
+	dbp, dap = (daparams[1], daparams[2]) if len(daparams) > 2 else ('db', 'data_attrs')
+	looked = [n for n in nodes(dacl, ast.Subscript) if unparse(n.value) == dbp and isinstance(n.slice, ast.Subscript) and unparse(n.slice.value) == dap]
+	ra.check(bool(looked), 'reader-lookup', da.where, 'attribute values are no longer looked up in db by the written type key')
 
 	# export order: dependencies first. _order_keys_recursive must be a post-order walk: it visits every attribute unconditionally before it lists the symbol's own type key
 	ro = rep.rule('C14/export-post-order', 'SymbolDB._order_keys_recursive recurses into every attribute before appending the type key, and no early return can skip the recursion (so import never meets a key that is not yet present)', floor=3)
@@ -163,15 +180,40 @@ def run(rep: Report, tier: str) -> None:
 		ro.check(app_i is not None and app_i > loop_i, 'append-after-recursion', okr.where, 'the type key must be appended after the attributes were visited (post-order)')
 		cond_loop = isinstance(body[loop_i], ast.For) and not any(isinstance(x, (ast.Continue, ast.Break)) for x in ast.walk(body[loop_i]))
 		ro.check(cond_loop, 'recursion-unconditional', okr.where, 'the attribute walk skips or stops early for some attributes')
-	src_ok = unparse(ok_.node)
-	ro.check('_order_keys_recursive(module_path, self.__items[key], orders)' in src_ok and 'if key not in orders' in src_ok and src_ok.index('_order_keys_recursive(') < src_ok.index('if key not in orders'), 'key-after-dependencies', ok_.where, '_order_keys no longer lists the dependencies of a key (recursive walk) before the key itself')
+	okx = X(ok_)
+	rec_calls = calls(okx, '_order_keys_recursive')
+	own = [c_ for c_ in nodes(okx, ast.Call) if isinstance(c_.func, ast.Attribute) and c_.func.attr == 'append' and c_.args and isinstance(c_.args[0], ast.Name)]
+	if not rec_calls or not own:
+		ro.skip('key-after-dependencies', ok_.where, '_order_keys no longer calls _order_keys_recursive and appends the key itself')
+	else:
+		a0 = own[0]
+		kname = a0.args[0].id
+		lst = unparse(a0.func.value)
+		fresh = (f'{kname} in {lst}', False) in facts(okx, a0)
+		ro.check(min(c_.lineno for c_ in rec_calls) < a0.lineno and fresh and any(unparse(c_.args[-1]) == lst for c_ in rec_calls if c_.args), 'key-after-dependencies', ok_.where, f'_order_keys must list the dependencies of a key (recursive walk into the same list) before the key itself, and the key only once (conditions at append: {facts(okx, a0)})')
 
 	# db import/export
 	rd = rep.rule('C14/db-import-export', 'SymbolDB.to_json serialises the ordered keys, import_json stores each row under its key and marks the module completed via the key parser __setitem__ uses', floor=4)
 	sdb = db.cls('SymbolDB')
 	tj, ij, si = sdb.method('to_json'), sdb.method('import_json'), sdb.method('__setitem__')
-	rd.check('serializer.serialize(self[key]) for key in self._order_keys(for_module_path)' in unparse(tj.node), 'to_json', tj.where, 'to_json no longer maps _order_keys(for_module_path) to serializer.serialize(self[key])')
-	isrc = unparse(ij.node)
-	rd.check('self[key] = serializer.deserialize(self, row)' in isrc, 'import-store', ij.where, 'import_json no longer stores serializer.deserialize(self, row) under the row key')
-	rd.check('ModuleDSN.parsed(key)[0]' in isrc and 'self.on_complete(module_path)' in isrc, 'import-completes', ij.where, 'import_json no longer marks the module of each key as completed')
-	rd.check('ModuleDSN.parsed(key)' in unparse(si.node), 'setitem-parser', si.where, '__setitem__ no longer files the key with ModuleDSN.parsed (import_json derives the module path with the same parser)')
+	tjx = FI(tj)
+	gens = [n for n in nodes(tjx, (ast.ListComp, ast.GeneratorExp, ast.DictComp, ast.For))]
+	tj_ok = False
+	for g in gens:
+		it = g.iter if isinstance(g, ast.For) else g.generators[0].iter
+		tgt = g.target if isinstance(g, ast.For) else g.generators[0].target
+		if isinstance(it, ast.Call) and unparse(it.func) == 'self._order_keys' and isinstance(tgt, ast.Name):
+			tj_ok = any(unparse(c_.func).endswith('.serialize') and c_.args and unparse(c_.args[0]) == f'self[{tgt.id}]' for c_ in nodes(g, ast.Call))
+	rd.check(tj_ok, 'to_json', tj.where, 'to_json no longer maps _order_keys(for_module_path) to serializer.serialize(self[key])')
+	ijx = X(ij)
+	stores = []
+	for lp in nodes(ijx, ast.For):
+		if isinstance(lp.target, ast.Tuple) and len(lp.target.elts) == 2 and isinstance(lp.iter, ast.Call) and unparse(lp.iter.func).endswith('.items'):
+			kv, rv = unparse(lp.target.elts[0]), unparse(lp.target.elts[1])
+			for n in nodes(lp, ast.Assign):
+				if unparse(n.targets[0]) == f'self[{kv}]' and isinstance(n.value, ast.Call) and unparse(n.value.func).endswith('.deserialize') and [unparse(a) for a in n.value.args] == ['self', rv]:
+					stores.append((lp, kv))
+	rd.check(bool(stores), 'import-store', ij.where, 'import_json no longer stores serializer.deserialize(self, row) under the row key')
+	completes = bool(stores) and any(c_.args and unparse(c_.args[0]) == stores[0][1] for c_ in calls(stores[0][0], 'ModuleDSN.parsed')) and has_call(stores[0][0], 'self.on_complete')
+	rd.check(completes, 'import-completes', ij.where, 'import_json no longer marks the module of each key as completed')
+	rd.check(has_call(X(si), 'ModuleDSN.parsed'), 'setitem-parser', si.where, '__setitem__ no longer files the key with ModuleDSN.parsed (import_json derives the module path with the same parser)')
